@@ -28,12 +28,12 @@ Inductive expr :=
 | AOr (a b : expr)                  (* a | b *)
 | AOther (children : list expr).    (* call / attribute / tuple / …: evaluates the children, yields an opaque value *)
 
-Inductive err := EImport | ENotFound | EName | EType | ESyntax | EExport | EFuel.
+Inductive err := EImport | ENotFound | EName | EType | ESyntax | EExport | EFuel | EValue.
 Inductive res (A : Type) := Ok (a : A) | Fail (e : err).
 Arguments Ok {A} a. Arguments Fail {A} e.
 
 Definition err_code (e : err) : N :=
-  match e with EImport => 1 | ENotFound => 2 | EName => 3 | EType => 4 | ESyntax => 5 | EExport => 6 | EFuel => 7 end.
+  match e with EImport => 1 | ENotFound => 2 | EName => 3 | EType => 4 | ESyntax => 5 | EExport => 6 | EFuel => 7 | EValue => 8 end.
 
 Definition env := list (str * kind).   (* latest binding first *)
 
@@ -265,6 +265,19 @@ Section Exec.
     | None => dedup (filter is_public (map fst (ms_globals T)))
     end.
 
+  (* enum.Enum rejects member names of the form _x_ ("_sunder_ names are reserved"): ValueError at class creation *)
+  Definition s_Enum : str := [69;110;117;109].
+  Definition s_IntEnum : str := [73;110;116;69;110;117;109].
+  Definition is_enum_class (heads : list expr) : bool :=
+    existsb (fun h => match h with AName n => str_eqb n s_Enum || str_eqb n s_IntEnum | _ => false end) heads.
+  Definition is_sunder (n : str) : bool :=
+    match n, rev n with
+    | a :: b :: _ :: _, y :: x :: _ => (a =? underscore) && negb (b =? underscore) && (y =? underscore) && negb (x =? underscore)
+    | _, _ => false
+    end.
+  Definition sunder_member (items : list citem) : bool :=
+    existsb (fun it => match it with CAssign n _ => is_sunder n | _ => false end) items.
+
   Definition pure_step (vw : view) (ga : env * option (list str)) (s : stmt) : res (env * option (list str)) :=
     let g := fst ga in
     let al := snd ga in
@@ -284,7 +297,8 @@ Section Exec.
         match eval_all (lookup_in [] g) heads with
         | Fail e => Fail e
         | Ok _ => match exec_class_body g [] items with
-                  | Ok _ => Ok ((n, KClass) :: g, al)
+                  | Ok _ => if is_enum_class heads && sunder_member items then Fail EValue
+                            else Ok ((n, KClass) :: g, al)
                   | Fail e => Fail e
                   end
         end
